@@ -263,7 +263,9 @@ def run(tier, seed):
                 'AS4_AGGREGATOR present), all combinations of the switches with all permutations of 5 attributes on 3 representative '
                 'messages; error half: ORIGIN in {3,255}, prefix length in {33,255} (NLRI and withdrawn), AS_PATH segment type in {0,5,255}, '
                 'every wrong length 0..8 of each fixed-length attribute, also through dataReceived. distinct = (family, variant, outcome)',
-        'samples': [{'variant': 'ext-len', 'family': 'attr:MED'}, {'error': 'attr3-length=8'}],
+        'samples': [{'family': c[0], 'class_vector': list(c[1]), 'msg': c[2], 'asn4': c[3], 'variants': [v[0] for v in variants_for(c[2], c[3])]}
+                    for i in report.pick(range(60000), seed, 2) for c in itertools.islice(pools.c06_cases(tier), i, i + 1)]
+        + [{'error_half': e[0], 'body': e[2].hex()} for e in report.pick(error_cases(), seed, 1)],
         'exhaustive': True, 'violation_keys': summary,
     }
     report.write_evidence(PROP, tier, seed, 'exploration', cov,
